@@ -41,8 +41,8 @@ def cases(tier, seed):
         for li in range(len(LABELS)):
             for rU in ((1, 2) if tier == "quick" else (1, 2, 3)):
                 for rV in ((1, 2) if tier == "quick" else (1, 2, 3)):
-                    for init in ((0, 1, 2, "pattern") if tier == "quick" else (0, 1, 2, 3, 4, 5, "pattern")):
-                        if tier == "quick" and ((rU + rV + (init if isinstance(init, int) else 3) + li) % 2):
+                    for init in ((0, 1, 2, "pattern", "pattern_F", "zero_D") if tier == "quick" else (0, 1, 2, 3, 4, 5, "pattern", "pattern_F", "zero_D")):
+                        if tier == "quick" and ((rU + rV + (init if isinstance(init, int) else len(init)) + li) % 2):
                             continue
                         out.append(dict(ubm=u, labels=li, rU=rU, rV=rV, init=init, K=K_IT[tier], seed=seed))
     return out
@@ -77,10 +77,15 @@ def _machine(case, ubm, s, iters):
 
     init = case["init"]
     m = JFAMachine(r_U=case["rU"], r_V=case["rV"], ubm=ubm, em_iterations=iters, random_state=init if isinstance(init, int) else 0, relevance_factor=4.0)
-    if init == "pattern":
+    if isinstance(init, str):
         C, D = ubm.means.shape
-        m.U = c11._pattern((C * D, case["rU"]), 1, s) + 0.125 * s
-        m.V = c11._pattern((C * D, case["rV"]), 2, s) - 0.125 * s
+        U0 = c11._pattern((C * D, case["rU"]), 1, s) + 0.125 * s
+        V0 = c11._pattern((C * D, case["rV"]), 2, s) - 0.125 * s
+        if init == "pattern_F":  # the same values held in column-major (Fortran-ordered) arrays
+            U0, V0 = np.asfortranarray(U0), np.asfortranarray(V0)
+        m.U, m.V = U0, V0
+        if init == "zero_D":  # residual term switched off for some dimensions
+            m.D = np.where(np.arange(C * D) % 2 == 0, 0.0, np.asarray(m.D, float))
     return m
 
 
@@ -141,6 +146,25 @@ def run_case(case):
             tot += ofa.diag_marginal(Dv, var, n, f)
         return tot
 
+    def em_pair_subspace(W, groups):
+        """One exact E/M pair for offset = W y from the definition. groups = list of (n (CD,), f (CD,)) with f already
+        centred on everything that is held fixed. Returns the re-estimated W."""
+        r = W.shape[1]
+        A1 = np.zeros((C, r, r))
+        A2 = np.zeros((C * D, r))
+        for n, f in groups:
+            Lm = np.eye(r) + W.T @ (W * (n / var)[:, None])
+            Li = np.linalg.inv(Lm)
+            yv = Li @ (W.T @ (f / var))
+            Eyy = Li + np.outer(yv, yv)
+            nc = n.reshape(C, D)[:, 0]
+            A1 += nc[:, None, None] * Eyy[None]
+            A2 += np.outer(f, yv)
+        out = np.zeros_like(W)
+        for cc in range(C):
+            out[cc * D : (cc + 1) * D] = A2[cc * D : (cc + 1) * D] @ np.linalg.inv(A1[cc])
+        return out
+
     def shapes(where):
         U, V, Dv = np.asarray(m.U), np.asarray(m.V), np.asarray(m.D)
         c.check(U.shape == (C * D, case["rU"]) and V.shape == (C * D, case["rV"]) and Dv.shape == (C * D,), "shapes", f"{where}: U{U.shape} V{V.shape} D{Dv.shape}", tags)
@@ -152,9 +176,17 @@ def run_case(case):
     # ---- V phase
     L = [lik_v(np.asarray(m.V, float))]
     for it in range(1, K + 1):
+        Vprev = np.array(m.V, float)
         out = m.e_step_v(X=X, y=y, n_acc=n_acc, f_acc=f_acc, **kw)
         m.m_step_v([out])
         c.transitions += 2
+        groups = []
+        for k in classes:
+            idx = [i for i in range(len(y)) if y[i] == k]
+            nn = sum(nh[i] for i in idx)
+            groups.append((nn, sum(fh[i] for i in idx) - nn * mvec))
+        Vref = em_pair_subspace(Vprev, groups)
+        c.close(np.asarray(m.V, float), Vref, "v_pair_definition", f"V after pair {it} vs the exact EM pair from the definition", tags, rtol=1e-7, scale=float(np.abs(Vref).max()) + 1e-9, kappa=1e5)
         L.append(lik_v(np.asarray(m.V, float)))
         c.check(L[-1] >= L[-2] - 1e-9 * max(1.0, abs(L[-2])), "v_phase", f"V-phase marginal likelihood fell from {L[-2]!r} to {L[-1]!r} at pair {it}", tags)
         shapes(f"V phase pair {it}")
@@ -168,9 +200,13 @@ def run_case(case):
     Vn = np.asarray(m.V, float)
     L = [lik_u(np.asarray(m.U, float), Vn, ly)]
     for it in range(1, K + 1):
+        Uprev = np.array(m.U, float)
         out = m.e_step_u(X=X, y=y, latent_y=ly, **kw)
         m.m_step_u([out])
         c.transitions += 2
+        groups = [(nh[i], fh[i] - nh[i] * (mvec + Vn @ np.asarray(ly[y[i]], float))) for i in range(len(y))]
+        Uref = em_pair_subspace(Uprev, groups)
+        c.close(np.asarray(m.U, float), Uref, "u_pair_definition", f"U after pair {it} vs the exact EM pair from the definition", tags, rtol=1e-7, scale=float(np.abs(Uref).max()) + 1e-9, kappa=1e5)
         L.append(lik_u(np.asarray(m.U, float), Vn, ly))
         c.check(L[-1] >= L[-2] - 1e-9 * max(1.0, abs(L[-2])), "u_phase", f"U-phase marginal likelihood fell from {L[-2]!r} to {L[-1]!r} at pair {it}", tags)
         shapes(f"U phase pair {it}")
